@@ -162,6 +162,7 @@ class DbAdapter:
                 a[0].p[PARAMS[p - 1]] = self.real(p, root["par"][k - 1][p - 1])
             core.add(a, self.locator(root["loc"][k - 1]))
             w.live.add(k)
+        self.cs["reloadDBName"] = ""
         self.r.p.cycle, self.r.p.timeNode = root["now"]
         self.r.p.time = self.time_of(*root["now"])
         w.nfile = 0
@@ -247,6 +248,9 @@ class DbAdapter:
         elif n == "Rotate":
             w.A.close(a["ok"])
             w.bpath, w.bstate = os.path.join(w.dir, "f%d.h5" % w.nfile), "closed"
+            # the closed file is the reload database of the case from now on (DatabaseInterface.loadState looks into the live
+            # database first and into cs["reloadDBName"] after it)
+            self.cs["reloadDBName"] = w.bpath
             w.A = self._open(w)
         elif n == "Merge":
             with w.Database(w.bpath, "r") as src:
@@ -423,7 +427,9 @@ def edge_class(e):
     ctx = "split" if any(x["off"] > 0 for x in sa) else "rebased0" if f["B"]["st"] == "closed" and sa and len(sb) > len(sa) \
         else "merged" if f["B"]["st"] == "closed" and sa else "-"
     if n == "Split":
-        return (n, len(a["k"]), min(k[0] for k in a["k"]) > 0, any(x["lab"] for x in sa))
+        ks = [tuple(k) for k in a["k"]]
+        return (n, min(len(ks), 3), min(k[0] for k in ks) > 0, any(x["lab"] for x in sa),
+                ks == sorted(ks), ks[0][0] == min(k[0] for k in ks))  # ... the order of the list: ascending? smallest cycle first?
     if n == "Merge":
         before = [x for x in sb if (x["c"], x["n"]) < (a["c"], a["t"])]
         return (n, min(len(before), 2), len(before) < len(sb), any(x["lab"] for x in before),
@@ -431,7 +437,8 @@ def edge_class(e):
     if n == "Load":
         me = [x for x in sa if (x["c"], x["n"], x["lab"]) == (a["c"], a["t"], a["l"])]
         twin = any((x["c"], x["n"]) == (a["c"], a["t"]) and x["lab"] != a["l"] and me and x["st"] != me[0]["st"] for x in sa)
-        return (n, a["via"], bool(a["l"]), twin, ctx)
+        other = any((x["c"], x["n"], x["lab"]) == (a["c"], a["t"], a["l"]) and me and x["st"] != me[0]["st"] for x in sb)
+        return (n, a["via"], bool(a["l"]), twin, other, ctx)
     if n == "Birth":
         return (n, a["o"], ctx, min(len(sa), 2))
     if n == "Write":
@@ -659,7 +666,7 @@ def trace_driver(ad, ntraces, nev, seed, first=0):
                     if not rotated and not split and plain:
                         split = True
                         k = rng.sample(plain, rng.randint(1, len(plain)))
-                        a = {"n": "Split", "k": sorted([list(pr) for pr in k])}
+                        a = {"n": "Split", "k": [list(pr) for pr in k]}  # in the (random) order of the sample
                 if a is None:
                     continue
                 try:
@@ -686,7 +693,34 @@ def trace_driver(ad, ntraces, nev, seed, first=0):
 # part B: aborted and completed runs  (RunWithDb)
 # ============================================================================================================
 class InjectedFailure(Exception):
-    """What a failing hook of an application interface raises."""
+    """What a failing hook of an application interface raises (kind "CustomError": an application's own Exception subclass)."""
+
+
+class InjectedAbort(BaseException):
+    """Kind "BaseException": an abort that is not an Exception."""
+
+
+def _raise(kind, where):
+    """A hook fails: with an ordinary exception, or with something that is not an Exception (sys.exit, Ctrl-C, ...)."""
+    import sys
+
+    msg = "injected failure at %r" % (where,)
+    if kind == "RuntimeError":
+        raise RuntimeError(msg)
+    if kind == "CustomError":
+        raise InjectedFailure(msg)
+    if kind == "SystemExit":
+        sys.exit(1)
+    if kind == "KeyboardInterrupt":
+        raise KeyboardInterrupt(msg)
+    if kind == "BaseException":
+        raise InjectedAbort(msg)
+    raise AssertionError("unknown kind of failure " + kind)
+
+
+KINDS = ("RuntimeError", "SystemExit", "CustomError", "KeyboardInterrupt", "BaseException")
+KIND_OF = {RuntimeError: "RuntimeError", InjectedFailure: "CustomError", SystemExit: "SystemExit",
+           KeyboardInterrupt: "KeyboardInterrupt", InjectedAbort: "BaseException"}
 
 
 class _Env:
@@ -709,15 +743,36 @@ class _FaultSink(list):
     """The call sink of gen_operator's recording interfaces: every hook of an "f" interface reports here first.  The hook named by
     `plan` fails; every other one changes the reactor state (one more unit on the tracked block parameter)."""
 
-    def __init__(self, o, plan):
+    def __init__(self, o, plan, kind="CustomError", probe=None):
         list.__init__(self)
-        self.o, self.plan, self.fired = o, plan, False
+        self.o, self.plan, self.kind, self.fired = o, plan, kind, False
+        self.probe, self.probes = probe, []  # probe = (stack position of the asking interface, nodes of the history) or None
+
+    def ask(self, ev):
+        """Operator.loadState for every node of the history (RuntimeError: no database holds it -> -1); the reactor of the run is
+        put back after each answer."""
+        o = self.o
+        keep = o.r
+        vals = []
+        for c, n in self.probe[1]:
+            try:
+                o.loadState(c, n)
+                v = int(round(float(o.r.core[0][0].p[PARAMS[0]])))
+            except RuntimeError:
+                v = -1
+            finally:
+                o.reattach(keep, o.cs)
+            vals.append([c, n, v])
+        self.probes.append({"e": ev["e"], "c": ev["rc"], "n": ev["rn"], "vals": vals})
 
     def append(self, ev):
         list.append(self, ev)
         if self.plan is not None and (ev["e"], ev["i"], ev["rc"], ev["rn"], ev["it"]) == self.plan:
             self.fired = True
-            raise InjectedFailure("injected failure at %r" % (self.plan,))
+            _raise(self.kind, self.plan)
+        # (the end-of-cycle dispatch nested in MainInterface.interactBOL of a restart comes before any BOL hook: not a probe point)
+        if self.probe and ev["i"] == self.probe[0] and ev["e"] in ("EOC", "EOL") and any(x["e"] == "BOL" for x in self):
+            self.ask(ev)
         block = self.o.r.core[0][0]  # the operator's current reactor (a restart replaces it by the loaded one)
         block.p[PARAMS[0]] = block.p[PARAMS[0]] + 1.0
 
@@ -781,7 +836,11 @@ class RunAdapter:
         r = rig.r
         r.core[0][0].p[PARAMS[0]] = 0.0
         plan = None if cr["e"] == "none" else (cr["e"], cr["i"], cr["c"], cr["n"], cr["it"])
-        sink = _FaultSink(o, plan)
+        probe = None
+        if reload_name:
+            nodes = [(c, n) for c, b in enumerate(run["steps"]) for n in range(b + 1)]
+            probe = (roles.index("f") + 1, nodes)
+        sink = _FaultSink(o, plan, cr.get("kind", "CustomError"), probe)
         dbi = None
         for k, role in enumerate(roles, start=1):
             if role == "main":
@@ -798,11 +857,12 @@ class RunAdapter:
             try:
                 with o:
                     o.operate()
-            except InjectedFailure:
-                out["raised"] = "InjectedFailure"
-            except Exception as ex:  # noqa: BLE001 -- anything else escaping the run is an observation
-                out["raised"] = "%s: %s" % (type(ex).__name__, str(ex)[:200])
+            except BaseException as ex:  # noqa: BLE001 -- whatever escapes the run is an observation ...
+                if not sink.fired and isinstance(ex, (KeyboardInterrupt, SystemExit)):
+                    raise  # ... except a real interrupt of the check itself
+                out["raised"] = KIND_OF[type(ex)] if sink.fired and type(ex) in KIND_OF else "%s: %s" % (type(ex).__name__, str(ex)[:200])
             out["fired"] = sink.fired
+            out["probes"] = sink.probes
         finally:
             try:
                 if dbi is not None and dbi._db is not None and dbi._db.isOpen():
@@ -854,7 +914,8 @@ def run_key(run, d):
         return "run:completed:%s%s" % (field, ":exempt-cycles" if run["tight"] and any(run.get("skip") or []) else "")
     dbi = run["roles"].index("db") + 1
     where = "before-db" if cr["i"] < dbi else "after-db"
-    return "run:abort:%s:%s:%s%s" % (cr["e"], where, field, "" if "main" in run["roles"] else ":no-main")
+    return "run:abort:%s:%s:%s%s%s" % (cr["e"], where, field, "" if "main" in run["roles"] else ":no-main",
+                                       "" if cr.get("kind") in ("RuntimeError", "CustomError") else ":not-an-Exception")
 
 
 def run_class(r, fine):
@@ -879,10 +940,17 @@ def stratified(runs, k, rng, fine=False):
         rng.shuffle(v)
     out = []
     keys = sorted(classes, key=lambda c: (c[2] != "none", str(c)))  # the completed runs first, then the failure points
+    turn = 0
     while len(out) < k and any(classes.values()):
         for key in keys:
             if classes[key] and len(out) < k:
-                out.append(classes[key].pop())
+                # what the failing hook raises rotates over the sample, so that every kind of abort is executed
+                want = KINDS[turn % len(KINDS)]
+                j = next((j for j, r in enumerate(classes[key]) if r["crash"].get("kind") == want), len(classes[key]) - 1)
+                r = classes[key].pop(j)
+                if r["crash"]["e"] != "none":
+                    turn += 1
+                out.append(r)
     return out
 
 
@@ -903,8 +971,9 @@ def execute_runs(ad, runs):
     """-> [(expected, observed)] for the printed runs, each executed for real"""
     out = []
     for run in runs:
-        exp = {"file": run["file"], "raised": None if run["crash"]["e"] == "none" else "InjectedFailure",
-               "fired": run["crash"]["e"] != "none"}
+        exp = {"file": run["file"], "raised": None if run["crash"]["e"] == "none" else run["crash"]["kind"],
+               "fired": run["crash"]["e"] != "none",
+               "probes": [{k: p[k] for k in ("e", "c", "n", "vals")} for p in run.get("probes", [])]}
         out.append((exp, ad.run(run)))
     return out
 
@@ -1409,6 +1478,8 @@ def selftest():
            "r = self.load(cycle, node, allowMissing=True)")),
         ("DatabaseInterface.loadState ignores the label",
          V(DI, "loadState", "statePointName=timeStepName,\n                        cs=self.cs,", "cs=self.cs,")),
+        ("splitDatabase takes the re-basing offset from the first step of the list, not the smallest (round 2, seed 1)",
+         V(D, "splitDatabase", "minCycle = next(iter(sorted(keepTimeSteps)))[0]", "minCycle = next(iter(keepTimeSteps))[0]")),
         ("history tracker answers every step with the live value",
          V(HT, "getBlockHistoryVal", "if self._isCurrentTimeStep(ts) and not self._databaseHasDataForTimeStep(ts):", "if True:")),
         ("Database.__exit__ closes as successful although an exception is passing",
@@ -1427,6 +1498,14 @@ def selftest():
            "        if writeDB:\n            # database has not yet been written, so we need to write it.\n"
            "            dbi = self.getInterface(\"database\")\n            dbi.writeDBEveryNode()",
            "            if writeDB:\n                dbi = self.getInterface(\"database\")\n                dbi.writeDBEveryNode()")),
+        ("Operator.__exit__ runs the error hooks for Exception instances only (round 2, seed 2)",
+         V(OP, "__exit__", "if any([exception_type, exception_value, stacktrace]):", "if isinstance(exception_value, Exception):")),
+        ("loadState asks the reload database before the live one (round 2, seed 5)",
+         V(DI, "_getLoadDB",
+           "            if self._db is not None:\n                yield self._db\n            if os.path.exists(self.cs[\"reloadDBName\"]):\n"
+           "                yield Database(self.cs[\"reloadDBName\"], \"r\")",
+           "            if os.path.exists(self.cs[\"reloadDBName\"]):\n                yield Database(self.cs[\"reloadDBName\"], \"r\")\n"
+           "            if self._db is not None:\n                yield self._db")),
         ("prepRestartRun merges one node too many", V(DI, "prepRestartRun", "self._db.mergeHistory(inputDB, startCycle, startNode)", "self._db.mergeHistory(inputDB, startCycle, startNode + 1)")),
         ("prepRestartRun does not merge the history", V(DI, "prepRestartRun", "self._db.mergeHistory(inputDB, startCycle, startNode)", "pass")),
         ("writeDBEveryNode stores every node but the first of a cycle under a label", V(DI, "writeDBEveryNode", "self._db.writeToDB(self.r)", "self._db.writeToDB(self.r, 'x' if self.r.p.timeNode else None)")),
